@@ -15000,8 +15000,14 @@ public:
 								  HFSM2_IF_UTILITY_THEORY(, RNG& rng)
 								  HFSM2_IF_LOG_INTERFACE(, Logger* const logger = nullptr))		noexcept;
 
+#if HFSM2_STRUCTURE_REPORT_AVAILABLE()
+	// the structure report points into the instance's own prefix storage: a copy must point into its own
+	HFSM2_CONSTEXPR(14) R_(const R_&  other)													noexcept;
+	HFSM2_CONSTEXPR(14) R_(		 R_&& other)													noexcept;
+#else
 	HFSM2_CONSTEXPR(NO) R_(const R_& )															noexcept = default;
 	HFSM2_CONSTEXPR(NO) R_(		 R_&&)															noexcept = default;
+#endif
 
 	HFSM2_CONSTEXPR(20)	~R_()																	noexcept;
 
@@ -15490,6 +15496,7 @@ protected:
 #if HFSM2_STRUCTURE_REPORT_AVAILABLE()
 	HFSM2_CONSTEXPR(14)	void getStateNames()													noexcept;
 	HFSM2_CONSTEXPR(14)	void udpateActivity()													noexcept;
+	HFSM2_CONSTEXPR(14)	void relinkStructure(const R_& other)									noexcept;
 
 	Prefixes _prefixes;
 
@@ -15535,6 +15542,34 @@ R_<TG_, TA_>::R_(PureContext&& context
 
 	HFSM2_IF_STRUCTURE_REPORT(getStateNames());
 }
+
+#if HFSM2_STRUCTURE_REPORT_AVAILABLE()
+
+template <typename TG_, typename TA_>
+HFSM2_CONSTEXPR(14)
+R_<TG_, TA_>::R_(const R_& other) noexcept
+	: _prefixes		  {other._prefixes		 }
+	, _structure	  {other._structure		 }
+	, _activityHistory{other._activityHistory}
+	, _core			  {other._core			 }
+	, _apex			  {other._apex			 }
+{
+	relinkStructure(other);
+}
+
+template <typename TG_, typename TA_>
+HFSM2_CONSTEXPR(14)
+R_<TG_, TA_>::R_(R_&& other) noexcept
+	: _prefixes		  {move(other._prefixes		  )}
+	, _structure	  {move(other._structure	  )}
+	, _activityHistory{move(other._activityHistory)}
+	, _core			  {move(other._core			  )}
+	, _apex			  {move(other._apex			  )}
+{
+	relinkStructure(other);
+}
+
+#endif
 
 template <typename TG_, typename TA_>
 HFSM2_CONSTEXPR(20)
@@ -16304,6 +16339,16 @@ R_<TG_, TA_>::getStateNames() noexcept {
 			}
 		}
 	}
+}
+
+template <typename TG_, typename TA_>
+HFSM2_CONSTEXPR(14)
+void
+R_<TG_, TA_>::relinkStructure(const R_& other) noexcept {
+	// entries copied from 'other' still point into other's prefixes
+	for (Long s = 0; s < _structure.count(); ++s)
+		if (_structure[s].prefix)
+			_structure[s].prefix = &_prefixes[0][0] + (_structure[s].prefix - &other._prefixes[0][0]);
 }
 
 template <typename TG_, typename TA_>
